@@ -126,18 +126,27 @@ fn worker(n: usize, shared: Arc<crate::mon_c12::Fixture>, sets: &mut Sets, st: &
             }
         }
         // header
-        if let Out::Ok((secret, h)) = call(|| EncryptedHeader::generate(fx.cc, &fx.mpk, ap, Some(b"identical metadata"), None)) {
+        // the authentication data rotates over absent / empty / every single byte / a string: the
+        // key-separation probe below must hold whatever the caller passes
+        let aad_choice: Option<Vec<u8>> = match i % 8 {
+            0 | 1 => None,
+            2 => Some(vec![]),
+            3 => Some(b"aad".to_vec()),
+            _ => Some(vec![((i / 8) % 256) as u8]),
+        };
+        if let Out::Ok((secret, h)) = call(|| EncryptedHeader::generate(fx.cc, &fx.mpk, ap, Some(b"identical metadata"), aad_choice.as_deref())) {
             st.bump("header_calls");
             sets.put("header secret", real::secret_bytes(&secret).to_vec());
             if let Some(Ok(w)) = ser(&h).ok().map(|b| WHeader::parse(&b)) {
                 if w.meta.len() >= 12 {
                     sets.put("header nonce", w.meta[..12].to_vec());
                     // the caller's secret must not be the metadata key
-                    if i % 16 == 0 {
+                    if i % 16 == 0 || i % 8 >= 4 {
                         let key = SymmetricKey::<32>::try_from_bytes(real::secret_bytes(&secret)).ok();
                         if let (Some(key), Ok(nonce)) = (key, Nonce::<12>::try_from_slice(&w.meta[..12])) {
                             st.bump("metadata_key_separation_checks");
-                            if Aes256Gcm::new(&key).decrypt(&nonce, &w.meta[12..], None).is_ok() {
+                            let dem = Aes256Gcm::new(&key);
+                            if dem.decrypt(&nonce, &w.meta[12..], None).is_ok() || dem.decrypt(&nonce, &w.meta[12..], aad_choice.as_deref()).is_ok() {
                                 st.findings.push(Finding {
                                     prop: "C16".into(),
                                     signature: "C16:caller-secret-decrypts-metadata".into(),
